@@ -1222,8 +1222,10 @@ class PDFCIDFont(PDFFont):
             spec_encoding = spec["Encoding"]
             if hasattr(spec_encoding, "name"):
                 cmap_name = literal_name(spec["Encoding"])
-            else:
+            elif isinstance(spec_encoding, (dict, PDFStream)):
                 cmap_name = literal_name(spec_encoding["CMapName"])
+            else:
+                raise KeyError("Encoding")
         except KeyError:
             if strict:
                 raise PDFFontError("Encoding is unspecified")
